@@ -14,6 +14,9 @@ import os
 from typing import Dict, List, Optional, Tuple, Iterable, Set, Union, Any
 
 
+API_MODULE = "dds._api"
+
+
 class AnalysisError(Exception):
     """The analysis cannot decide (missing anchor, unsupported shape...). Exit code 2."""
 
@@ -42,12 +45,22 @@ def unparse(node: Optional[ast.AST], limit: int = 120) -> str:
 
 
 class Module:
-    def __init__(self, name: str, relpath: str, source: str, is_pkg: bool):
+    def __init__(self, name: str, relpath: str, source: str, is_pkg: bool, normalise: Optional[Set[str]] = None,
+                 role_names: Optional[Set[str]] = None):
         self.name = name
         self.relpath = relpath
         self.source = source
         self.is_pkg = is_pkg
         self.tree = ast.parse(source, filename=relpath)
+        self.inlined: List[str] = []
+        if "from_list" in source:
+            from .inline import expand_path_constants
+
+            self.inlined += expand_path_constants(self.tree)
+        if normalise is not None:
+            from .inline import normalise as _normalise
+
+            self.inlined += _normalise(self.tree, normalise, role_names or set())
         self.imports: Dict[str, str] = {}
         self.funcs: Dict[str, "Func"] = {}
         self.classes: Dict[str, "Class"] = {}
@@ -145,9 +158,35 @@ class Program:
         self.funcs: Dict[str, Func] = {}
         self.classes: Dict[str, Class] = {}
         self.func_of_node: Dict[ast.AST, Func] = {}
+        # private names of the API module that other modules refer to are never inlined away
+        api_refs: Set[str] = set()
+        for name, (rel, src, is_pkg) in sorted(sources.items()):
+            if name != API_MODULE and "_api" in src:
+                try:
+                    t = ast.parse(src)
+                except SyntaxError:
+                    continue
+                for n in ast.walk(t):
+                    if isinstance(n, ast.ImportFrom) and (n.module or "").split(".")[-1] == "_api":
+                        api_refs.update(a.name for a in n.names)
+                    elif isinstance(n, ast.Attribute) and isinstance(n.value, (ast.Name, ast.Attribute)) and unparse(n.value).split(".")[-1] == "_api":
+                        api_refs.add(n.attr)
+        role_names: Set[str] = set()
         for name, (rel, src, is_pkg) in sorted(sources.items()):
             try:
-                self.modules[name] = Module(name, rel, src, is_pkg)
+                if name == "dds.store":
+                    for n in ast.parse(src).body:
+                        if isinstance(n, ast.ClassDef) and n.name == "Store":
+                            role_names.update(x.name for x in n.body if isinstance(x, ast.FunctionDef) and not x.name.startswith("_"))
+                elif name == API_MODULE:
+                    for n in ast.parse(src).body:
+                        if isinstance(n, ast.ImportFrom) and "introspect" in (n.module or ""):
+                            role_names.update(a.asname or a.name for a in n.names if not (a.asname or a.name).startswith("_"))
+            except SyntaxError:
+                pass
+        for name, (rel, src, is_pkg) in sorted(sources.items()):
+            try:
+                self.modules[name] = Module(name, rel, src, is_pkg, normalise=api_refs if name == API_MODULE else None, role_names=role_names)
             except SyntaxError as e:
                 raise AnalysisError(f"cannot parse {rel}: {e}")
         for m in self.modules.values():
